@@ -173,6 +173,15 @@ def f_outer_aggr2(p):
     m = p.fresh("om")
     p.decl(m, [("k", "number"), ("m", "float")])
     p.rule("%s(k,m) :- n1(k), m = mean v : { %s(k,v) }." % (m, fl))
+    # outermost aggregates over an index range (a bound column): the parallel index-aggregate operators
+    oi = p.fresh("oi")
+    p.decl(oi, [("k", "number"), ("m", "float"), ("c", "number")])
+    for kk in p.r.sample(range(0, 6), 2):
+        p.rule("%s(%d,m,c) :- m = mean v : { %s(%d,v) }, c = count : { %s(%d,_) }." % (oi, kk, fl, kk, fl, kk))
+    oj = p.fresh("oj")
+    p.decl(oj, [("k", "number"), ("s", "number"), ("lo", "number")])
+    kk = p.r.randrange(0, 6)
+    p.rule("%s(%d,s,lo) :- s = sum a+b : { e2(%d,a,b) }, lo = min a-b : { e2(%d,a,b) }." % (oj, kk, kk, kk))
     return n
 
 
